@@ -129,7 +129,7 @@ func (w *World) iterOp(t []string) string {
 				i := it.Result()
 				s := "T:" + hx(i.Key) + ":" + strconv.Itoa(int(i.Priority))
 				if wv {
-					s += ":" + hx(i.Val)
+					s += ":" + hx(fullVal(i))
 				}
 				out = append(out, s)
 			} else {
